@@ -366,6 +366,15 @@ fn exec_op(st: &State, op: &str, c: &Cmd, nested: bool) -> OpResult {
             with_ty!(c, T, guard(|| ops::ty_write_exact::<T>(&bytes, buflen)))
         }
         "size" => with_ty!(c, T, guard(|| ops::ty_size::<T>())),
+        "key_eq" => {
+            let (a, b) = (c.bytes("a")?, c.bytes("b")?);
+            let id = c.int("kem")?;
+            match c.str("ty")? {
+                "pk" => with_kem!(id, Kem, guard(|| ops::key_eq::<<Kem as KemTrait>::PublicKey>(&a, &b))),
+                "sk" => with_kem!(id, Kem, guard(|| ops::key_eq::<<Kem as KemTrait>::PrivateKey>(&a, &b))),
+                other => Err(tool(format!("key_eq: no == for ty {:?}", other))),
+            }
+        }
         "psk_bundle_new" => {
             let (psk, psk_id) = (c.bytes("psk")?, c.bytes("psk_id")?);
             guard(|| ops::psk_bundle_new(&psk, &psk_id))
